@@ -1750,6 +1750,7 @@ def _unparenthesize_grouping(self: fst.FST, shared: bool | None = True, *, star_
 
         else:
             self._put_src(None, end_ln, end_col, pend_ln, pend_col, True, self)
+            self._fix_joined_alnums(end_ln, end_col, lines=lines)  # there may have been space between us and the par, e.g. 'not( b )if c'
 
         if pcol and _re_par_open_alnums.match(l := lines[pln], pcol - 1):
             lines[pln] = bistr(l[:pcol] + ' ' + l[pcol + 1:])
@@ -1761,6 +1762,7 @@ def _unparenthesize_grouping(self: fst.FST, shared: bool | None = True, *, star_
 
         else:
             self._put_src(None, pln, pcol, ln, col, False)
+            self._fix_joined_alnums(pln, pcol, lines=lines)
 
     return True
 
